@@ -59,3 +59,10 @@ VARIANTS += [
  dict(id='c07-p5ref4-pipeline-words-on-first-axis', prop='C07', base='P5-REF4', expect='C07-D2', file='scared/selection_functions/base.py',
       old="            return values.swapaxes(0, -1)[self.words].swapaxes(0, -1)\n", new="            return values[self.words]\n"),
 ]
+
+VARIANTS += [
+ dict(id='c07-p5ref6-spec-table-wrong-key', prop='C07', base='P5-REF6', expect='C07-D1', file='scared/aes/selection_functions/encrypt.py',
+      old="'LastSubBytes': _Target(function=_inv_sub_bytes, expected_key_function=_last_key),", new="'LastSubBytes': _Target(function=_inv_sub_bytes, expected_key_function=_first_key),"),
+ dict(id='c07-p5ref6-spec-table-wrong-function', prop='C07', base='P5-REF6', expect='C07-D1', file='scared/aes/selection_functions/encrypt.py',
+      old="'FirstSubBytes': _Target(function=_sub_bytes, expected_key_function=_first_key),", new="'FirstSubBytes': _Target(function=_inv_sub_bytes, expected_key_function=_first_key),"),
+]
